@@ -12,13 +12,13 @@ namespace Edzed.CsigTie
 open Edzed.Wiring
 
 /-- Python value of an expectation: `None` | int | `(cmin, cmax)`; a malformed one has none -/
-def encE : Expect → Option Gen.TrC.E
+def encE : Expect → Option Gen.TrCS.E
   | .single => some none
   | .exact n => some (some (.inl n))
   | .range lo hi => some (some (.inr (lo, hi)))
   | .malformed => none
 
-def encSig : List (String × Expect) → Option (List (String × Gen.TrC.E))
+def encSig : List (String × Expect) → Option (List (String × Gen.TrCS.E))
   | [] => some []
   | (k, e) :: rest =>
     match encE e, encSig rest with
@@ -27,7 +27,7 @@ def encSig : List (String × Expect) → Option (List (String × Gen.TrC.E))
 
 /-- the primitives in the model; `cm` = what difflib suggests, `out` = the outputs -/
 def cprims {V : Type} (c : Circ) (cm : String → List String → List String) (out : Ref → V) :
-    Gen.TrC.CPrims Inp V String (Option Gen.TrW.BType) where
+    Gen.TrCS.CPrims Inp V String (Option Gen.TrW.BType) where
   isGroup i := match i with
     | .group _ => true
     | .single _ => false
@@ -50,18 +50,18 @@ def cprims {V : Type} (c : Circ) (cm : String → List String → List String) (
 
 variable {V : Type}
 
-def excOfErr : Err → Gen.TrC.SigExc
+def excOfErr : Err → Gen.TrCS.SigExc
   | .invalidState => .invalidState
   | .keyError => .keyError
   | _ => .typeError
 
 theorem inputSignature_run (c : Circ) (cm) (out : Ref → V) (b : String) :
-    Gen.TrC.inputSignature (cprims c cm out) (c.inputs b) =
+    Gen.TrCS.inputSignature (cprims c cm out) (c.inputs b) =
       (match Wiring.inputSignature c b with
         | .ok l => .ok l
         | .error _ => .error .invalidState) := by
-  unfold Gen.TrC.inputSignature Wiring.inputSignature
-  simp only [Gen.TrC.Q.bind, Gen.TrC.Q.gets, Gen.TrC.Q.raise, Gen.TrC.Q.pure, Bool.not_not]
+  unfold Gen.TrCS.inputSignature Wiring.inputSignature
+  simp only [Gen.TrCS.Q.bind, Gen.TrCS.Q.gets, Gen.TrCS.Q.raise, Gen.TrCS.Q.pure, Bool.not_not]
   cases h : (c.inputs b).isEmpty
   · simp only [Bool.false_eq_true, if_false]
     congr 1
@@ -72,52 +72,52 @@ theorem inputSignature_run (c : Circ) (cm) (out : Ref → V) (b : String) :
   · simp
 
 /-- the sections of the message for the unexpected names `u` and the missing names `m` -/
-def sectsOf (cm : String → List String → List String) (u m : List String) : List Gen.TrC.Sect :=
+def sectsOf (cm : String → List String → List String) (u m : List String) : List Gen.TrCS.Sect :=
   (if u.isEmpty then [] else [.unexpected (u.map fun n => ⟨n, cm n m⟩)]) ++
   (if m.isEmpty then [] else [.missing m])
 
 theorem parts_fold (cm : String → List String → List String) (m : List String) (u : List String) :
-    ∀ acc : List Gen.TrC.Part,
-    Gen.TrC.Q.foldM u acc (fun v5 v6 =>
-      Gen.TrC.Q.bind (Gen.TrC.Q.pure (cm v6 m)) fun v7 =>
-      Gen.TrC.Q.bind (Gen.TrC.Q.gets fun _ => !(List.isEmpty v7)) fun (c_ : Bool) =>
+    ∀ acc : List Gen.TrCS.Part,
+    Gen.TrCS.Q.foldM u acc (fun v5 v6 =>
+      Gen.TrCS.Q.bind (Gen.TrCS.Q.pure (cm v6 m)) fun v7 =>
+      Gen.TrCS.Q.bind (Gen.TrCS.Q.gets fun _ => !(List.isEmpty v7)) fun (c_ : Bool) =>
       if c_ then
-        Gen.TrC.Q.bind (Gen.TrC.Q.pure (v5 ++ [Gen.TrC.Part.mk v6 v7])) fun v5 => Gen.TrC.Q.pure v5
+        Gen.TrCS.Q.bind (Gen.TrCS.Q.pure (v5 ++ [Gen.TrCS.Part.mk v6 v7])) fun v5 => Gen.TrCS.Q.pure v5
       else
-        Gen.TrC.Q.bind (Gen.TrC.Q.pure (v5 ++ [Gen.TrC.Part.mk v6 []])) fun v5 => Gen.TrC.Q.pure v5) =
+        Gen.TrCS.Q.bind (Gen.TrCS.Q.pure (v5 ++ [Gen.TrCS.Part.mk v6 []])) fun v5 => Gen.TrCS.Q.pure v5) =
       .ok (acc ++ u.map fun n => ⟨n, cm n m⟩) := by
   induction u with
-  | nil => intro acc; simp [Gen.TrC.Q.foldM, Gen.TrC.Q.pure]
+  | nil => intro acc; simp [Gen.TrCS.Q.foldM, Gen.TrCS.Q.pure]
   | cons n rest ih =>
     intro acc
-    simp only [Gen.TrC.Q.foldM, Gen.TrC.Q.bind, Gen.TrC.Q.pure, Gen.TrC.Q.gets]
+    simp only [Gen.TrCS.Q.foldM, Gen.TrCS.Q.bind, Gen.TrCS.Q.pure, Gen.TrCS.Q.gets]
     cases h : (cm n m).isEmpty
     · simp only [Bool.not_false, if_true]
       have := ih (acc ++ [⟨n, cm n m⟩])
-      simp only [Gen.TrC.Q.bind, Gen.TrC.Q.pure, Gen.TrC.Q.gets] at this
+      simp only [Gen.TrCS.Q.bind, Gen.TrCS.Q.pure, Gen.TrCS.Q.gets] at this
       rw [this]; simp
     · simp only [Bool.not_true, Bool.false_eq_true, if_false]
       have hnil : cm n m = [] := by simpa using h
       have := ih (acc ++ [⟨n, []⟩])
-      simp only [Gen.TrC.Q.bind, Gen.TrC.Q.pure, Gen.TrC.Q.gets] at this
+      simp only [Gen.TrCS.Q.bind, Gen.TrCS.Q.pure, Gen.TrCS.Q.gets] at this
       rw [this]; simp [hnil]
 
 theorem setdiffMsg_run (c : Circ) (cm) (out : Ref → V) (a e : List String) :
-    Gen.TrC.setdiffMsg (cprims c cm out) a e =
+    Gen.TrCS.setdiffMsg (cprims c cm out) a e =
       .ok (sectsOf cm (a.filter fun k => !e.contains k) (e.filter fun k => !a.contains k)) := by
-  unfold Gen.TrC.setdiffMsg
+  unfold Gen.TrCS.setdiffMsg
   have hsd : ∀ x y, (cprims c cm out).setDiff x y = x.filter fun k => !y.contains k := fun _ _ => rfl
   have hcm : (cprims c cm out).closeMatches = cm := rfl
-  simp only [Gen.TrC.Q.bind, Gen.TrC.Q.pure, Gen.TrC.Q.gets, hsd, hcm]
+  simp only [Gen.TrCS.Q.bind, Gen.TrCS.Q.pure, Gen.TrCS.Q.gets, hsd, hcm]
   generalize List.filter (fun k => !e.contains k) a = U
   generalize List.filter (fun k => !a.contains k) e = M
   have pf := parts_fold cm M U []
-  simp only [Gen.TrC.Q.bind, Gen.TrC.Q.pure, Gen.TrC.Q.gets, List.nil_append] at pf
+  simp only [Gen.TrCS.Q.bind, Gen.TrCS.Q.pure, Gen.TrCS.Q.gets, List.nil_append] at pf
   cases hu : U.isEmpty <;> cases hm : M.isEmpty <;>
     simp only [sectsOf, hu, hm, Bool.not_true, Bool.not_false, Bool.false_eq_true, if_true, if_false, pf,
       List.nil_append, List.append_nil] <;> rfl
 
-theorem valuediff_enc (e : Expect) (v : Option Nat) (x : Gen.TrC.E) (h : encE e = some x) :
+theorem valuediff_enc (e : Expect) (v : Option Nat) (x : Gen.TrCS.E) (h : encE e = some x) :
     Gen.Tr.sigValueDiff v x = valueDiff e v := by
   cases e with
   | single => cases h; cases v <;> rfl
@@ -136,7 +136,7 @@ theorem valuediff_enc (e : Expect) (v : Option Nat) (x : Gen.TrC.E) (h : encE e 
     | some k => cases lo <;> cases hi <;> simp [Gen.Tr.sigValueDiff, valueDiff]
 
 theorem encSig_cons {k : String} {e : Expect} {rest : List (String × Expect)}
-    {ee : List (String × Gen.TrC.E)} (h : encSig ((k, e) :: rest) = some ee) :
+    {ee : List (String × Gen.TrCS.E)} (h : encSig ((k, e) :: rest) = some ee) :
     ∃ x r, encE e = some x ∧ encSig rest = some r ∧ ee = (k, x) :: r := by
   simp only [encSig] at h
   cases h1 : encE e with
@@ -146,7 +146,7 @@ theorem encSig_cons {k : String} {e : Expect} {rest : List (String × Expect)}
     | none => simp [h1, h2] at h
     | some r => simp [h1, h2] at h; exact ⟨x, r, rfl, rfl, h.symm⟩
 
-theorem all_map_enc (f : String × Gen.TrC.E → Bool) (g : String × Expect → Bool)
+theorem all_map_enc (f : String × Gen.TrCS.E → Bool) (g : String × Expect → Bool)
     (esig : List (String × Expect)) : ∀ ee, encSig esig = some ee →
     (∀ k e x, encE e = some x → f (k, x) = g (k, e)) → ee.all f = esig.all g := by
   induction esig with
@@ -175,44 +175,44 @@ theorem enc_facts (bsig : List (String × Option Nat)) (esig : List (String × E
     | range lo hi => simpa [firstMalformed] using i5
 
 theorem values_fold (bsig : List (String × Option Nat))
-    (F : List String → String × Gen.TrC.E → Gen.TrC.Q (List String)) (G : String × Expect → Bool)
+    (F : List String → String × Gen.TrCS.E → Gen.TrCS.Q (List String)) (G : String × Expect → Bool)
     (esig : List (String × Expect)) :
-    ∀ (ee : List (String × Gen.TrC.E)) (acc : List String), encSig esig = some ee →
+    ∀ (ee : List (String × Gen.TrCS.E)) (acc : List String), encSig esig = some ee →
     (∀ k e x acc, encE e = some x → (k, e) ∈ esig →
       F acc (k, x) = .ok (if G (k, e) then acc ++ [k] else acc)) →
-    Gen.TrC.Q.foldM ee acc F = .ok (acc ++ keysOf (esig.filter G)) := by
+    Gen.TrCS.Q.foldM ee acc F = .ok (acc ++ keysOf (esig.filter G)) := by
   induction esig with
-  | nil => intro ee acc h _; cases h; simp [Gen.TrC.Q.foldM, Gen.TrC.Q.pure, keysOf]
+  | nil => intro ee acc h _; cases h; simp [Gen.TrCS.Q.foldM, Gen.TrCS.Q.pure, keysOf]
   | cons p rest ih =>
     obtain ⟨k, e⟩ := p
     intro ee acc h hF
     obtain ⟨x, r, h1, h2, rfl⟩ := encSig_cons h
-    simp only [Gen.TrC.Q.foldM, hF k e x acc h1 (by simp), Gen.TrC.Q.bind, List.filter_cons]
+    simp only [Gen.TrCS.Q.foldM, hF k e x acc h1 (by simp), Gen.TrCS.Q.bind, List.filter_cons]
     rw [ih r _ h2 (fun k' e' x' acc' hx hm => hF k' e' x' acc' hx (by simp [hm]))]
     cases G (k, e) <;> simp [keysOf]
 
 /-- the exception of the translated check for a diagnosis of the model -/
-def excOfDiag (cm : String → List String → List String) : SigDiag → Gen.TrC.SigExc
+def excOfDiag (cm : String → List String → List String) : SigDiag → Gen.TrCS.SigExc
   | .names u m => .names (sectsOf cm u m)
   | .values l => .values l
   | .malformed _ => .typeError
 
 /-- `CBlock.check_signature` for every well-formed expected signature -/
 theorem checkSignature_run (c : Circ) (cm) (out : Ref → V) (b : String) (esig : List (String × Expect))
-    (ee : List (String × Gen.TrC.E)) (he : encSig esig = some ee) :
-    Gen.TrC.checkSignature (cprims c cm out) (c.inputs b) ee =
+    (ee : List (String × Gen.TrCS.E)) (he : encSig esig = some ee) :
+    Gen.TrCS.checkSignature (cprims c cm out) (c.inputs b) ee =
       (match Wiring.checkSignatureD c b esig, Wiring.inputSignature c b with
         | .ok none, .ok bsig => .ok bsig
         | .ok (some d), _ => .error (excOfDiag cm d)
         | _, _ => .error .invalidState) := by
-  unfold Gen.TrC.checkSignature Wiring.checkSignatureD
+  unfold Gen.TrCS.checkSignature Wiring.checkSignatureD
   rw [inputSignature_run]
   cases hs : Wiring.inputSignature c b with
   | error e => rfl
   | ok bsig =>
     obtain ⟨a3, a4, a5⟩ := enc_facts bsig esig ee he
-    have hde : Gen.TrC.dictEq bsig ee = sigEq bsig esig := by
-      unfold Gen.TrC.dictEq sigEq
+    have hde : Gen.TrCS.dictEq bsig ee = sigEq bsig esig := by
+      unfold Gen.TrCS.dictEq sigEq
       rw [a3]
       congr 1
       apply all_map_enc _ _ esig ee he
@@ -221,19 +221,19 @@ theorem checkSignature_run (c : Circ) (cm) (out : Ref → V) (b : String) (esig 
       | malformed => cases hx
       | single => cases hx; cases hl : bsig.lookup k with
         | none => simp [hl]
-        | some v => cases v <;> simp [hl, Gen.TrC.sigItemEq]
+        | some v => cases v <;> simp [hl, Gen.TrCS.sigItemEq]
       | exact n => cases hx; cases hl : bsig.lookup k with
         | none => simp [hl]
-        | some v => cases v <;> simp [hl, Gen.TrC.sigItemEq]
+        | some v => cases v <;> simp [hl, Gen.TrCS.sigItemEq]
       | range lo hi => cases hx; cases hl : bsig.lookup k with
         | none => simp [hl]
-        | some v => cases v <;> simp [hl, Gen.TrC.sigItemEq]
-    have hke : Gen.TrC.keysEq bsig ee = sameKeys bsig esig := by
-      unfold Gen.TrC.keysEq sameKeys
+        | some v => cases v <;> simp [hl, Gen.TrCS.sigItemEq]
+    have hke : Gen.TrCS.keysEq bsig ee = sameKeys bsig esig := by
+      unfold Gen.TrCS.keysEq sameKeys
       rw [a3]
       congr 1
       exact all_map_enc _ _ esig ee he (fun _ _ _ _ => rfl)
-    simp only [Gen.TrC.Q.bind, Gen.TrC.Q.gets, hde, hke, sigDiagnosis]
+    simp only [Gen.TrCS.Q.bind, Gen.TrCS.Q.gets, hde, hke, sigDiagnosis]
     cases h1 : sigEq bsig esig
     · simp only [Bool.not_false, if_true, Bool.false_eq_true, if_false]
       cases h2 : sameKeys bsig esig
@@ -249,15 +249,15 @@ theorem checkSignature_run (c : Circ) (cm) (out : Ref → V) (b : String) (esig 
             | none => true) esig ee [] he (by
           intro k e x acc hx hm
           obtain ⟨v, hv⟩ := Option.isSome_iff_exists.mp (hall (k, e) hm)
-          simp only [hv, Gen.TrC.Q.pure, valuediff_enc e v x hx])]
+          simp only [hv, Gen.TrCS.Q.pure, valuediff_enc e v x hx])]
         simp only [List.nil_append]
         cases hb : (keysOf (esig.filter fun p =>
             match bsig.lookup p.1 with
             | some v => valueDiff p.2 v
             | none => true)).isEmpty
-        · simp [Gen.TrC.Q.raise, excOfDiag, hb] <;> rfl
-        · simp [Gen.TrC.Q.pure, hb] <;> rfl
-    · simp [Gen.TrC.Q.pure]
+        · simp [Gen.TrCS.Q.raise, excOfDiag, hb] <;> rfl
+        · simp [Gen.TrCS.Q.pure, hb] <;> rfl
+    · simp [Gen.TrCS.Q.pure]
 
 theorem firstMalformed_bad (bsig : List (String × Option Nat)) (esig : List (String × Expect)) (k : String)
     (h : firstMalformed bsig esig = some k) :
@@ -338,44 +338,22 @@ theorem checkSignature_iff_diag (c : Circ) (b : String) (esig : List (String × 
       exact this.mpr (Except.ok.inj h)
 
 theorem getblocks_run (c : Circ) (cm) (out : Ref → V) :
-    Gen.TrC.getblocks (cprims c cm out) c.order none = .ok c.order ∧
-    Gen.TrC.getblocks (cprims c cm out) c.order (some .cblock) = .ok (cblockNames c) ∧
-    Gen.TrC.getblocks (cprims c cm out) c.order (some .not) = .ok (notNames c) := by
+    Gen.TrCS.getblocks (cprims c cm out) c.order none = .ok c.order ∧
+    Gen.TrCS.getblocks (cprims c cm out) c.order (some .cblock) = .ok (cblockNames c) ∧
+    Gen.TrCS.getblocks (cprims c cm out) c.order (some .not) = .ok (notNames c) := by
   refine ⟨rfl, rfl, rfl⟩
 
 theorem getitem_run (c : Circ) (cm) (out : Ref → V) (b name : String) :
-    Gen.TrC.inputGetterGetitem (cprims c cm out) (c.inputs b) name =
+    Gen.TrCS.inputGetterGetitem (cprims c cm out) (c.inputs b) name =
       (match Wiring.inputGet out c b name with
         | .ok v => .ok v
         | .error _ => .error .keyError) := by
-  unfold Gen.TrC.inputGetterGetitem Wiring.inputGet
+  unfold Gen.TrCS.inputGetterGetitem Wiring.inputGet
   cases (c.inputs b).lookup name with
   | none => rfl
   | some i => cases i <;> rfl
 
-/-! ### `FuncBlock.start` -/
-
-/-- the primitives: the state is "what `self._func` holds" -- `false` the user's function, `true` the
-    `bind` of its signature; calling `bind` raises TypeError unless the inputs fit, calling the
-    function itself is not what `start()` does (it returns) -/
-def fprims (f : FSig) (unpack : Bool) (ins : Inputs) : Gen.TrC.FPrims Bool Bool where
-  getFunc s := s
-  setFunc x _ := x
-  bindOf _ := true
-  calcOutput s :=
-    if s then (s, if f.binds (callShape unpack ins).1 (callShape unpack ins).2 then .ok () else .error "TypeError")
-    else (s, .ok ())
-
-/-- `FuncBlock.start`: TypeError exactly if the function cannot be called with the connected inputs;
-    in both cases `self._func` is the user's function again afterwards -/
-theorem funcBlockStart_run (f : FSig) (unpack : Bool) (ins : Inputs) :
-    Gen.TrC.funcBlockStart (fprims f unpack ins) false =
-      (false, match Wiring.funcStart f unpack ins with
-        | .ok () => .ok ()
-        | .error _ => .error "TypeError") := by
-  unfold Gen.TrC.funcBlockStart Wiring.funcStart Gen.TrC.tryFinally
-  simp only [Gen.TrW.W.bind, Gen.TrW.W.gets, Gen.TrW.W.tryExcept, Gen.TrW.W.modify, Gen.TrW.W.pure, fprims]
-  cases f.binds (callShape unpack ins).1 (callShape unpack ins).2 <;> simp [Gen.TrW.W.raise]
+/-! ### `FuncBlock.start`: what `inspect.Signature.bind` demands -/
 
 /-- what `bind` demands, said outright -/
 def Callable (f : FSig) (n : Nat) (kw : List String) : Prop :=
@@ -411,16 +389,16 @@ def confSum : ConfInp → String ⊕ List String
 
 def confStep (c : Circ) (cm : String → List String → List String) (out : Ref → V) :
     List (String × (String ⊕ List String)) → String × Inp →
-      Gen.TrC.Q (List (String × (String ⊕ List String))) :=
+      Gen.TrCS.Q (List (String × (String ⊕ List String))) :=
   fun acc_ (v2, v3) =>
     if (cprims c cm out).isGroup v3 then
       match (cprims c cm out).groupNames v3 with
-      | some l_ => Gen.TrC.Q.pure (acc_ ++ [(v2, Sum.inr l_)])
-      | none => Gen.TrC.Q.raise Gen.TrC.SigExc.attributeError
+      | some l_ => Gen.TrCS.Q.pure (acc_ ++ [(v2, Sum.inr l_)])
+      | none => Gen.TrCS.Q.raise Gen.TrCS.SigExc.attributeError
     else
       match (cprims c cm out).singleName v3 with
-      | some n_ => Gen.TrC.Q.pure (acc_ ++ [(v2, Sum.inl n_)])
-      | none => Gen.TrC.Q.raise Gen.TrC.SigExc.attributeError
+      | some n_ => Gen.TrCS.Q.pure (acc_ ++ [(v2, Sum.inl n_)])
+      | none => Gen.TrCS.Q.raise Gen.TrCS.SigExc.attributeError
 
 def confItem (p : String × Inp) : Option (String × ConfInp) := (p.2.conf).map fun x => (p.1, x)
 
@@ -445,38 +423,38 @@ theorem confStep_eq (c : Circ) (cm) (out : Ref → V) (acc) (k : String) (i : In
 
 theorem conf_fold (c : Circ) (cm) (out : Ref → V) (ins : Inputs) :
     ∀ acc : List (String × (String ⊕ List String)),
-    Gen.TrC.Q.foldM ins acc (confStep c cm out) =
+    Gen.TrCS.Q.foldM ins acc (confStep c cm out) =
     (match ins.mapM confItem with
       | some l => .ok (acc ++ l.map fun p => (p.1, confSum p.2))
       | none => .error .attributeError) := by
   induction ins with
-  | nil => intro acc; simp [Gen.TrC.Q.foldM, Gen.TrC.Q.pure]
+  | nil => intro acc; simp [Gen.TrCS.Q.foldM, Gen.TrCS.Q.pure]
   | cons p rest ih =>
     obtain ⟨k, i⟩ := p
     intro acc
-    simp only [Gen.TrC.Q.foldM, List.mapM_cons, Option.bind_eq_bind, confStep_eq]
+    simp only [Gen.TrCS.Q.foldM, List.mapM_cons, Option.bind_eq_bind, confStep_eq]
     cases confItem (k, i) with
     | none => rfl
     | some q =>
-      simp only [Gen.TrC.Q.bind, Option.bind_some]
+      simp only [Gen.TrCS.Q.bind, Option.bind_some]
       rw [ih]
       cases rest.mapM confItem with
       | none => rfl
       | some l => simp
 
 theorem getConf_run (c : Circ) (cm) (out : Ref → V) (b : String) :
-    Gen.TrC.cblockGetConf (cprims c cm out) c.finalized (c.inputs b) =
+    Gen.TrCS.cblockGetConf (cprims c cm out) c.finalized (c.inputs b) =
       (match Wiring.getConfInputs c b with
         | none => .ok { type := "combinational", inputs := none }
         | some none => .error .attributeError
         | some (some l) => .ok { type := "combinational", inputs := some (l.map fun p => (p.1, confSum p.2)) }) := by
-  have hshape : Gen.TrC.cblockGetConf (cprims c cm out) c.finalized (c.inputs b) =
+  have hshape : Gen.TrCS.cblockGetConf (cprims c cm out) c.finalized (c.inputs b) =
       (if c.finalized then
-        Gen.TrC.Q.bind (Gen.TrC.Q.bind (Gen.TrC.Q.foldM (c.inputs b) [] (confStep c cm out)) fun i_ =>
-          Gen.TrC.Q.pure ({ type := "combinational", inputs := some i_ } : Gen.TrC.ConfRec)) fun v0 =>
-          Gen.TrC.Q.pure v0
+        Gen.TrCS.Q.bind (Gen.TrCS.Q.bind (Gen.TrCS.Q.foldM (c.inputs b) [] (confStep c cm out)) fun i_ =>
+          Gen.TrCS.Q.pure ({ type := "combinational", inputs := some i_ } : Gen.TrCS.ConfRec)) fun v0 =>
+          Gen.TrCS.Q.pure v0
        else .ok { type := "combinational", inputs := none }) := by
-    unfold Gen.TrC.cblockGetConf
+    unfold Gen.TrCS.cblockGetConf
     cases c.finalized <;> rfl
   rw [hshape, conf_fold]
   unfold Wiring.getConfInputs
